@@ -429,6 +429,9 @@ def _execute(program, stats, hist):
                 stats.probe("evaluation_only_call_raised")
                 if op["which"] == "price" and cspec["kind"] in ("MSELoss", "L1Loss"):
                     continue  # torch losses have no cash(): price is not defined for them
+                if "max_iter" in repr(e):
+                    stats.ambiguous_skipped += 1
+                    continue  # the default cash search at its iteration cap (P&L magnitude of a long horizon): termination is C19
                 if not _pl_admissible(h, d, hedge, cspec):
                     continue
                 raise Violation(ID, "op_raised", "%s:%s" % (op["which"], type(e).__name__), dict(cfg, error=repr(e)[:300]), seq)
